@@ -105,7 +105,8 @@ def rouwenhorst(n, rho, sigma, mu=0.):
     # Gianluca Violante's notes on computational methods
     p = (1 + rho) / 2
     q = p
-    psi = y_sd * np.sqrt(n - 1)
+    # float(): a narrow NumPy integer n would give a float16/32 square root
+    psi = y_sd * np.sqrt(float(n - 1))
 
     # Find the states
     ubar = psi
